@@ -148,6 +148,9 @@ def run(repo, rep):
     rep.clause("C18-t", "several configuration files are read in command-line order (no ordering or de-duplication of the list)")
     rep.clause("C18-u", "the value converters of the configuration reader return the conversion of the given text or raise; no constant stands in for an illegal value")
     rule_round11(repo, rep)
+    rep.clause("C18-v", "the configuration files are parsed as one group before any lookup (one read call with the whole list)")
+    rep.clause("C18-w", "--config is repeatable as documented (action='append', no nargs)")
+    rule_round12(repo, rep)
     rule_round10(repo, rep)
     rule_round9(repo, rep)
     rep.clause("C18-o", "bundled system configurations: clock x port width x clock scale equals the bandwidth documented above the section")
@@ -1136,3 +1139,35 @@ def rule_round11(repo, rep):
                       "(arena_mem_area= in a child of Dedicated_Sram resolves to Axi0 and beats the inherited Axi1)")
         raises = [x for x in ast.walk(f) if isinstance(x, ast.Raise)]
         rep.check(bool(raises), "C18-u", f"{AF}:{q}", "an illegal value raises", "no raise statement")
+
+
+def rule_round12(repo, rep):
+    """(v) all configuration files are read as one group before any section is looked up (inherit may name a section of a later file, and a
+    later file overrides an earlier one): `ConfigParser.read` is called once, with the whole list, outside any loop.
+    (w) `--config` may be repeated on the command line (OPTIONS.md): the option is declared with action="append" and without nargs - with
+    nargs a second --config replaces the first."""
+    am = repo.mod("architecture_features")
+    fn = am.func("ArchitectureFeatures._get_vela_config")
+    site = f"{AF}:ArchitectureFeatures._get_vela_config"
+    reads = [c for c in ast.walk(fn) if isinstance(c, ast.Call) and isinstance(c.func, ast.Attribute) and c.func.attr == "read" and "vela_config" in str(norm(c.func.value))]
+    if len(reads) != 1:
+        raise AnalysisError(f"_get_vela_config: {len(reads)} read calls")
+    c = reads[0]
+    in_loop = False
+    cur = c
+    while cur is not fn and cur is not None:
+        cur = am.parents.get(cur)
+        if isinstance(cur, (ast.For, ast.While)):
+            in_loop = True
+    prm = [a.arg for a in fn.args.args]
+    ok = not in_loop and len(c.args) == 1 and isinstance(c.args[0], ast.Name) and c.args[0].id in prm
+    rep.check(ok, "C18-v", site, "the configuration files are read as one group: one read call with the whole list, outside any loop",
+              f"`{str(norm(c))[:60]}`" + (" inside a loop" if in_loop else "") + ": files after the one that completes the selection are not parsed - a parent named by `inherit` in a later file is 'not found', a later file's overrides are lost")
+    vm = repo.mod("vela")
+    mf = vm.func("main")
+    decl = [x for x in ast.walk(mf) if isinstance(x, ast.Call) and isinstance(x.func, ast.Attribute) and x.func.attr == "add_argument" and x.args and isinstance(x.args[0], ast.Constant) and x.args[0].value == "--config"]
+    if len(decl) != 1:
+        raise AnalysisError("vela.main: declaration of --config not found")
+    kw = {k.arg: str(norm(k.value)) for k in decl[0].keywords}
+    rep.check(kw.get("action") in ("'append'", '"append"') and "nargs" not in kw, "C18-w", "ethosu/vela/vela.py:main", "--config is declared with action='append' (repeatable)",
+              f"declared with {dict((k_, v_) for k_, v_ in kw.items() if k_ in ('action', 'nargs'))}: `--config A.ini --config B.ini` keeps only B.ini")
